@@ -106,7 +106,8 @@ def server_stream(c, w, P, frames):
 
     def f(w_, sock):
         if hs == 'ok':
-            h = hconn.reply_101(w_, sock)
+            # (compress: permessage-deflate offered by the client and accepted by the server; zlib is the abstract codec of C06)
+            h = hconn.reply_101(w_, sock, b'Sec-WebSocket-Extensions: permessage-deflate\r\n' if P.get('compress') else b'')
         elif hs == 'wrong-accept':
             h = list(b'HTTP/1.1 101 Switching Protocols\r\nUpgrade: websocket\r\nSec-WebSocket-Accept: '
                      b'AAAAAAAAAAAAAAAAAAAAAAAAAAA=\r\n\r\n')
@@ -232,6 +233,8 @@ def run_life(c, P):
                 return mk_str([0x41, x, 0x5A])
             return 'A' + chr(x) + 'Z'
         wkw = dict(agent=cp('agent_cp'), protocols=[cp('proto_cp')])
+    if P.get('compress'):
+        wkw['compress'] = True
     ws = L.WebSocket(P.get('url', 'ws://example.com/'), **wkw)
     app = App(c, w, P)
     ck = dict(poll=1e9, ping_rate=0, ping_timeout=None, close_timeout=None, auto_pong=True)
